@@ -18,7 +18,7 @@ BOTH = ["chk", "rel"]
 
 PROPS = {
     "C08": dict(
-        profiles=["chk"], level="model_checking", units=units_simple(16),
+        profiles=BOTH, level="model_checking", units=units_with32(16),
         rule=("explicit-state search to fixpoint over real PageTableEntry values: state = raw u64, actions = set_addr/set_frame (45 aligned "
               "addresses incl. every single address bit x ~58 flag sets incl. every single flag bit 0-11/52-63), set_flags, set_unused; after every "
               "transition raw == addr|flags (hardware layout), addr()/flags()/frame()/is_unused() read back; PageTable: size/alignment, all 512 slots "
@@ -49,7 +49,7 @@ PROPS = {
                      "the harness' general handler re-aligns its stack (LLVM's diverging error-code stub calls it with RSP%16==8)"],
     ),
     "C14": dict(
-        profiles=BOTH, level="model_checking", units=units_simple(16),
+        profiles=BOTH, level="model_checking", units=units_with32(16),
         rule=("DFS over append histories on real GlobalDescriptorTable<MAX> for MAX in {1,2,3,8,9}: every {user,system}-kind sequence up to the first "
               "overflow beyond MAX, values = default per kind + non-default values (0, all-ones, 6 presets, DPL patterns, TSS descriptor) at one deviation "
               "each (bound 3; 2 for MAX>=8 in quick); after every append entries()==reference Vec<u64>, selector==first_slot<<3|dpl, limit==8*len-1, "
@@ -129,7 +129,7 @@ PROPS = {
 ENGINES = [
     {"name": "vh", "path": "/verif/harness", "serves_properties": sorted(PROPS.keys()),
      "kind_free_text": "Rust harness linking the crate from /repo; bounded exhaustive enumeration / explicit-state search over real code with reference models"},
-    {"name": "vh32", "path": "/verif/harness32", "serves_properties": ["C04", "C05", "C06", "C07"],
+    {"name": "vh32", "path": "/verif/harness32", "serves_properties": ["C04", "C05", "C06", "C07", "C08", "C14"],
      "kind_free_text": "pointer-width lane: bounded enumeration of the usize-dependent operations with the crate built for a 32-bit usize target (i686), interpreted by Miri (which also aborts on undefined behaviour)"},
 ]
 
@@ -165,6 +165,10 @@ MAPPER_CONFIGS = [
     ("offset:0x0:asc:C",            "2,2;3,1;4,0", "3,3;4,1;5,0"),
     ("mapped:0x3fffd000:lifo:C",    "2,2;3,1;4,0", "3,3;4,1;5,0"),
     ("rec5:0x0:asc:C",              "2,2;3,2;4,0", "3,3;4,2;5,0"),
+    # physical base 0 with the lowest frame handed out first: frame 0 (physical address 0) becomes a page TABLE
+    ("offset:0x0:aligned:A",        "2,2;3,1",     "3,3;4,1;5,0"),
+    ("mapped:0x0:aligned:C",        "2,2;3,1",     "3,3;4,1"),
+    ("rec126:0x0:aligned:A",        "2,2;3,0",     "3,2;4,0"),
 ]
 
 # the same engine built without overflow checks / debug assertions (profile rel) for one configuration per mapper family:
@@ -190,7 +194,7 @@ _MAPPER_RULE = ("explicit-state breadth-first search over call histories on the 
                 "over simulated physical memory: state = concrete content of all page-table frames + allocator pool (+ deviations used); ~250 actions "
                 "per state (map_to_with_table_flags/map_to/identity_map x 3 sizes x frames x leaf flags (incl. one value with every flag bit but HUGE_PAGE) x 4 parent-flag values (two of them incomparable) x 5 allocator failure schedules, unmap, "
                 "update_flags, set_flags_p4/p3/p2_entry, clean_up, clean_up_addr_range x 12 ranges); bounds are unions of (depth, deviation) pairs, a deviation "
-                "being one non-default argument; 21 configurations (implementation x physical base x allocator policy x page alphabet A nesting / B edges / C related indices) in the overflow-checking profile plus 5 of them rebuilt without overflow checks / debug assertions. "
+                "being one non-default argument; 24 configurations (implementation x physical base x allocator policy x page alphabet A nesting / B edges / C related indices) in the overflow-checking profile plus 5 of them rebuilt without overflow checks / debug assertions. "
                 "After every transition: outcome class vs the abstract model R1 (Appendix A of DESIGN.md), full hardware-style traversal R2 of raw memory == R1, "
                 "parent-entry flags, allocation/deallocation logs, access monitor; in every new state: translate/translate_addr/translate_page on the probe addresses == R1 == single-address hardware walk.")
 
